@@ -96,7 +96,7 @@ func c17Phases() []*fw.Phase {
 	}
 	multi := &fw.Phase{
 		Name: "several-requests-per-package-cache-reuse",
-		N:    fw.Fixed(3000, 60000),
+		N:    fw.Fixed(10000, 60000),
 		Run: func(env *fw.Env, idx int) fw.Result {
 			r := env.Rand(idx)
 			ls := get(3)
